@@ -251,6 +251,10 @@ class UDP6EndpointAddress(interfaces.EndpointAddress):
 
     @property
     def is_multicast_locally(self):
+        if self.pktinfo is None:
+            # Not received on any local address (an address to send to, or
+            # the response address of something that came in by multicast)
+            return False
         return ipaddress.ip_address(self._plainaddress_local()).is_multicast
 
     def as_response_address(self):
